@@ -197,6 +197,17 @@ fn run_tables(seed: u64, idx: u64, tier: Tier, out: &mut CaseOut, c05: bool) {
             }
             set_ids(&mut table);
             out.inc("tables_with_ids");
+            if crng.chance(1, 2) {
+                table.empty_first_rows = true;
+            }
+        }
+        // listings: a cell's words inside <pre> with a final line break
+        if crng.chance(1, 8) {
+            for c in table.rows.iter_mut().flatten() {
+                if !c.words.is_empty() && c.nested.is_none() && c.br_after.is_empty() && !c.paras && crng.chance(1, 2) {
+                    c.pre = true;
+                }
+            }
         }
         let ctx = if crng.chance(1, 3) { crng.range(1, 4) } else { 0 };
         (vec![variant(&mut crng)], ctx)
